@@ -109,6 +109,27 @@ Definition hmon_step (m : hmon) (e : list N * obs) : hmon :=
 Definition handles_ok (tr : list (list N * obs)) : bool :=
   h_good (fold_left hmon_step tr (mkHmon true 1 false false true)).
 
+(* runs of the model on encoded operations with whole-call receiver drops (code 9; what the
+   harness executes): every call respects the contract, the split sections 7 / 8 do not occur *)
+Fixpoint mtrace (s : state) (ls : list (list N)) : list (list N * obs) :=
+  match ls with
+  | [] => []
+  | l :: r => let '(s', ob) := mstep s l in (l, ob) :: mtrace s' r
+  end.
+
+Definition mlegal (s : state) (l : list N) : bool :=
+  match l with
+  | [9%N] => negb (gone s) && Nat.ltb 0 (receivers s)
+  | [7%N] | [8%N] => false
+  | _ => match decode l with Some o => legal s o | None => false end
+  end.
+
+Fixpoint mlegal_run (s : state) (ls : list (list N)) : bool :=
+  match ls with
+  | [] => true
+  | l :: r => mlegal s l && mlegal_run (fst (mstep s l)) r
+  end.
+
 (* a whole receiver drop (code 9) reaches the monitor as one handle operation *)
 Definition decode_mon (l : list N) : option op :=
   match l with
